@@ -482,3 +482,5 @@ def run(chk):
     check_script_accounting(chk, F)
     from . import limits
     limits.check_limits(chk, F)
+    from . import weights
+    chk.guard("R09.4", "weights", weights.check_weights, chk, F)
